@@ -21,19 +21,21 @@ type instrSite struct {
 }
 
 type instrReport struct {
-	Sites       []instrSite       `json:"sites"`
-	Files       map[string]int    `json:"files"`
-	SyncRewrite []string          `json:"sync_rewritten"`
-	GoStmts     []string          `json:"go_stmts"`
-	ChanOps     []string          `json:"chan_ops"`
-	ChanWrapped []string          `json:"chan_wrapped"`
-	Gosched     []string          `json:"gosched"`
-	Knob        map[string]string `json:"knob"`
-	Finalizers  []string          `json:"finalizers"`
-	Timers      []string          `json:"timers"`
-	CLI         []string          `json:"cli_redirected"`
-	CLIMain     bool              `json:"cli_main"`
-	SyncLib     int               `json:"sync_lib"`
+	Sites         []instrSite       `json:"sites"`
+	Files         map[string]int    `json:"files"`
+	SyncRewrite   []string          `json:"sync_rewritten"`
+	GoStmts       []string          `json:"go_stmts"`
+	ChanOps       []string          `json:"chan_ops"`
+	ChanWrapped   []string          `json:"chan_wrapped"`
+	Gosched       []string          `json:"gosched"`
+	Knob          map[string]string `json:"knob"`
+	Finalizers    []string          `json:"finalizers"`
+	Timers        []string          `json:"timers"`
+	CLI           []string          `json:"cli_redirected"`
+	CLIMain       bool              `json:"cli_main"`
+	SyncLib       int               `json:"sync_lib"`
+	KnobEntangled []string          `json:"knob_entangled"`
+	NewPoolNoted  []string          `json:"newpool_noted"`
 }
 
 type build struct {
